@@ -225,10 +225,13 @@ def check_laws(case):
 
 
 # ------------------------------------------------------------------------------------------
-def _hier(states, parg, level, dims):
+def _hier(states, parg, level, dims, dimform="list"):
     from toqito.state_opt import symmetric_extension_hierarchy
 
-    v = symmetric_extension_hierarchy(states, parg, level=level, dim=list(dims))
+    # dim as a list, or as the scalar dimension of the FIRST subsystem (seeded change C12-s4 read the scalar as the
+    # second subsystem's dimension; the hierarchy had only ever been called with the list form)
+    dim = int(dims[0]) if dimform == "scalar" else list(dims)
+    v = symmetric_extension_hierarchy(states, parg, level=level, dim=dim)
     if v is None or not np.isfinite(v):
         raise Inconclusive("solver_no_value")
     return float(v)
@@ -246,12 +249,13 @@ def check_hierarchy(case):
     lb, ub, _ = sdp_ref.discrimination_interval(dms, p, ppt=(case["dims"], 1))
     if ub - lb > 1e-5:
         raise Inconclusive("oracle_gap")
-    l1 = _hier(_hier_inputs(case, dms, kets), parg, 1, case["dims"])
+    dimform = "scalar" if case["seed"] % 3 == 0 else "list"
+    l1 = _hier(_hier_inputs(case, dms, kets), parg, 1, case["dims"], dimform)
     req(abs(l1 - ub) <= 1e-3, f"hierarchy level 1 value {l1:.6f} != PPT value {ub:.6f}", "level1!=ppt")
     pm = _product_measurement_value(case, dms, p)
     req(l1 >= pm - 2e-3, f"level 1 value {l1:.6f} below an explicit separable measurement {pm:.6f}", "below-separable")
     if case["level2"]:
-        l2 = _hier(_hier_inputs(case, dms, kets), parg, 2, case["dims"])
+        l2 = _hier(_hier_inputs(case, dms, kets), parg, 2, case["dims"], dimform)
         req(l2 <= l1 + 2e-3, f"hierarchy increased with the level: level 1 {l1:.6f}, level 2 {l2:.6f}", "level-increase")
         req(l2 >= pm - 2e-3, f"level 2 value {l2:.6f} below an explicit separable measurement {pm:.6f}", "below-separable")
         # default arguments: level=2 and (for equal local dims) dim omitted
